@@ -23,7 +23,7 @@ EXPLANATION = ('Lean theorems about step/finalize/unlock (lock flag algebra, rej
 def gen_case(rng):
   regs = G.gen_registry(rng, rng.randint(2, 3))
   scopes = [[], ['a'], ['a', 'b']]
-  ops = list(regs) + G.gen_history(rng, regs, rng.randint(8, 25), scopes)
+  ops = list(regs) + G.gen_history(rng, regs, rng.randint(8, 25), scopes, w={'special': 0.25})
   ops += [{'op': 'locked'}, {'op': 'config'}, {'op': 'registry'}]
   return {'dom': 'gin', 'ops': ops}
 
